@@ -3,7 +3,7 @@ import sys, os, json, subprocess, hashlib, time, re, shutil, fcntl, glob
 
 from . import tlcval, corpora, props
 
-REPO = '/repo'
+REPO = os.environ.get('VERIF_REPO', '/repo')
 
 
 class ToolError(Exception):
@@ -166,7 +166,7 @@ def parse_mc_output(out):
 def mc_cfg(consts, invariants=(), properties=(), spec='Spec', extra=''):
     lines = ['SPECIFICATION %s' % spec, 'CONSTANTS']
     for k, v in consts.items():
-        lines.append('  %s = %s' % (k, v))
+        lines.append(('  %s %s' % (k, v)) if str(v).startswith('<-') else ('  %s = %s' % (k, v)))
     for i in invariants:
         lines.append('INVARIANT %s' % i)
     for p in properties:
